@@ -1,5 +1,5 @@
-example (p rel : List Nat) (hr : rel ≠ []) : (p ++ rel).getLast? = rel.getLast? := by
-  simp [List.getLast?_append, hr]
-  cases h : rel.getLast? with
-  | none => simp [List.getLast?_eq_none_iff] at h; exact absurd h hr
-  | some x => simp
+import MW.Model.KVHandles
+open MW MW.KV MW.Model.KV
+unseal MW.Dec.render in
+example : itoa 2 = [50] := by decide
+example : itoa 12 = [49, 50] := by decide +kernel
